@@ -1,7 +1,7 @@
 """C15 -- DATA / READ / RESTORE."""
 import ast
 
-from .. import registries as R
+from .. import pat, registries as R
 from .. import proto
 from ..astutil import dotted, const, unparse, walk_shallow
 from ..cfg import build_cfg, repo_noreturn
@@ -200,7 +200,7 @@ def source_order(ctx):
                     'visit order', p.file, p.line)
     for lname in ('process_label_pre', 'process_lineno_pre'):
         f = repo.func('qbee.compiler', f'Pass1.{lname}')
-        ok = 'self._last_label = node.canonical_name' in unparse(f.node)
+        ok = pat.has('self._last_label = __.canonical_name', f.node)
         ctx.instance(rule, f'{f.file}:Pass1.{lname}')
         if not ok:
             ctx.finding(rule, f'{f.file}:Pass1.{lname}',
@@ -225,7 +225,7 @@ def source_order(ctx):
                                 f'join another group and are read out of '
                                 f'source order', f.file, s_.lineno)
     cu = repo.func('qbee.compiler', 'CompilationUnit.__init__')
-    ok = 'self.data = defaultdict(list)' in unparse(cu.node)
+    ok = pat.has('self.data = defaultdict(list)', cu.node)
     ctx.instance(rule, f'{cu.file}:CompilationUnit.__init__:data')
     if not ok:
         ctx.finding(rule, f'{cu.file}:CompilationUnit.__init__:data',
@@ -250,7 +250,7 @@ def source_order(ctx):
                         f'{qn} reorders DATA parts/items: {bad}', f.file,
                         f.line)
     ad = repo.func('qbee.qvm_codegen', 'QvmCode.add_data')
-    ok = 'self._data[label].extend(data)' in unparse(ad.node)
+    ok = pat.has('self._data[_L].extend(_D)', ad.node)
     ctx.instance(rule, f'{ad.file}:QvmCode.add_data:extend')
     if not ok:
         ctx.finding(rule, f'{ad.file}:QvmCode.add_data:extend',
